@@ -405,6 +405,7 @@ class Client:
                         sock.close()
                         sock = None
                 else:
+                    error = None
                     break
 
             if error is not None:
